@@ -275,7 +275,7 @@ func init() {
 		azUnit(c)
 		azValidatorReload(c)
 		azE2E(c)
-		c.close([]string{"iv:true", "iv:false", "va:true", "va:false", "va:reload", "gr:true", "gr:false", "ao:true", "ao:false", "ao:nil-session",
+		c.close([]string{"iv:true", "iv:false", "va:true", "va:false", "va:reload", "va:emptied-file", "gr:true", "gr:false", "ao:true", "ao:false", "ao:nil-session",
 			"ao:domain-check-pass", "ao:domain-check-fail", "login:session", "login:forbidden", "gate:ok", "gate:denied", "gate:login", "gate:bypass",
 			"history:file-rewrite-denied", "history:second-proxy-denied", "history:second-proxy-ok", "authonly:202", "authonly:403", "authonly:401",
 			"htpasswd:exempt-served", "htpasswd:groups-denied", "monitor:served-allowed", "monitor:refused-cleared"})
@@ -339,6 +339,16 @@ func azCorpus(c *suiteCtx) {
 		{[][2]string{{"allowed_groups", ",,"}}, "u@example.com", nil},
 		{[][2]string{{"allowed_emails", "u@example.com"}}, "U@example.com", nil},
 		{[][2]string{{"allowed_email_domains", "example.com"}}, "a@b@example.com", nil},
+		// whitespace-only / blank items must not turn into an empty entity that an empty e-mail or an empty group name matches
+		{[][2]string{{"allowed_emails", "admin@example.com, "}}, "", nil},
+		{[][2]string{{"allowed_emails", "admin@example.com,\t"}}, "", []string{"staff"}},
+		{[][2]string{{"allowed_emails", " "}}, "", nil},
+		{[][2]string{{"allowed_groups", "admins, ,ops"}}, "u@example.com", []string{""}},
+		{[][2]string{{"allowed_groups", " "}}, "u@example.com", []string{"", "x"}},
+		{[][2]string{{"allowed_groups", "a, b"}}, "u@example.com", []string{"b"}},
+		{[][2]string{{"allowed_groups", "a, b"}}, "u@example.com", []string{" b"}},
+		{[][2]string{{"allowed_email_domains", " "}}, "u@", nil},
+		{[][2]string{{"allowed_emails", " u@example.com"}}, "u@example.com", nil},
 	} {
 		azAO(c, k.q, k.e, k.g, true)
 	}
@@ -510,6 +520,34 @@ func azValidatorReload(c *suiteCtx) {
 			}
 			c.count("va:reload")
 			probe()
+		}
+		if file != "" && i%4 == 1 && len(set) > 0 {
+			// the operator removes EVERY entry (empty / comment-only file): nobody from the file stays authorised
+			for len(w.updates) > 0 {
+				<-w.updates
+			}
+			prev := set
+			content := "# nobody\n"
+			if i%8 == 1 {
+				content = ""
+			}
+			tmp := file + ".tmp"
+			os.WriteFile(tmp, []byte(content), 0o600)
+			os.Rename(tmp, file)
+			select {
+			case <-w.updates:
+			case <-time.After(3 * time.Second):
+				c.violation("HARNESS", "reload of the emptied authenticated-emails file not observed", map[string]interface{}{"file": file})
+			}
+			set = nil
+			for _, e := range prev {
+				got := w.validate(e)
+				c.emit(bs(got), "va", hxl(ds), hxl(set), hx(e))
+				c.count("va:emptied-file")
+				if allowed, sane := azEmailAllowed(e, ds, nil); sane && got && !allowed {
+					c.violation("C08", "an e-mail removed from the authenticated-emails file (file emptied) is still accepted after the reload", map[string]interface{}{"email": e, "email_domains": ds, "file_content": content})
+				}
+			}
 		}
 		close(w.done)
 	}
